@@ -1,5 +1,3 @@
-use std::cmp::Ordering;
-
 use crate::{BoundingRect, Line, PointF, Polygon, RotatedRect, Vec2};
 
 /// Return the cross product of the vectors `a -> b` and `a -> c`.
@@ -12,12 +10,6 @@ fn orientation(a: PointF, b: PointF, c: PointF) -> f64 {
     let (ab_x, ab_y) = (b.x as f64 - a.x as f64, b.y as f64 - a.y as f64);
     let (ac_x, ac_y) = (c.x as f64 - a.x as f64, c.y as f64 - a.y as f64);
     ab_x * ac_y - ab_y * ac_x
-}
-
-/// Return the squared distance between two points.
-fn sq_distance(a: PointF, b: PointF) -> f64 {
-    let (dx, dy) = (b.x as f64 - a.x as f64, b.y as f64 - a.y as f64);
-    dx * dx + dy * dy
 }
 
 /// Return the sorted subset of points from `poly` that form a convex hull
@@ -43,32 +35,32 @@ pub fn convex_hull(poly: &[PointF]) -> Vec<PointF> {
     };
 
     // Sort points by decreasing angle between `point - min_point` and the X
-    // axis, with `min_point` first. Angles are compared via the sign of a
-    // cross product rather than via rounded cosines, so that collinear points
-    // are always recognized as such. When multiple points form the same angle,
-    // order them by distance from `min_point`; the scan below then keeps only
-    // the furthest one.
-    let mut sorted_points: Vec<PointF> = poly.to_vec();
-    sorted_points.sort_by(|&a, &b| match (a == min_point, b == min_point) {
-        (true, true) => Ordering::Equal,
-        (true, false) => Ordering::Less,
-        (false, true) => Ordering::Greater,
-        (false, false) => {
-            let turn = orientation(min_point, a, b);
-            if turn > 0. {
-                Ordering::Less
-            } else if turn < 0. {
-                Ordering::Greater
-            } else {
-                sq_distance(min_point, a).total_cmp(&sq_distance(min_point, b))
-            }
+    // axis, with `min_point` first. All other points lie above `min_point` (or
+    // level with it and to its right), so the angle is a decreasing function
+    // of `dx / -dy`, which is used as the sort key. Dividing in f64 gives
+    // exactly equal keys to points that are collinear with `min_point`; these
+    // are ordered by distance from it and the scan below then keeps only the
+    // furthest one. Sorting by precomputed keys, rather than by a comparator
+    // which evaluates cross products, keeps the order consistent for any input,
+    // including non-finite coordinates.
+    let sort_key = |p: PointF| -> (f64, f64) {
+        if p == min_point {
+            (f64::NEG_INFINITY, 0.)
+        } else {
+            let dx = p.x as f64 - min_point.x as f64;
+            let dy = p.y as f64 - min_point.y as f64;
+            // nb. `0. - dy` rather than `-dy` so that `dy == 0` gives +infinity.
+            (dx / (0. - dy), dx * dx + dy * dy)
         }
-    });
-    sorted_points.dedup();
+    };
+    let mut sorted_points: Vec<(PointF, (f64, f64))> =
+        poly.iter().map(|&p| (p, sort_key(p))).collect();
+    sorted_points.sort_by(|(_, a), (_, b)| a.0.total_cmp(&b.0).then(a.1.total_cmp(&b.1)));
+    sorted_points.dedup_by_key(|(point, _)| *point);
 
     // Visit sorted points and keep the sequence that can be followed without
     // making any clockwise turns.
-    for &p in sorted_points.iter() {
+    for &(p, _) in sorted_points.iter() {
         while hull.len() >= 2 {
             let [prev2, prev] = [hull[hull.len() - 2], hull[hull.len() - 1]];
             let turn_dir = orientation(prev2, prev, p);
